@@ -447,6 +447,10 @@ def check_wire(lx: LayoutExtractor, rep, prefix='C02', only=None, rule_map=None)
         rep.check(not p3, R('L3'), key(lay, 'length-field'), loc,
                   'length field governs exactly the bytes after it (%s); total_length() = bytes emitted' %
                   (lens[0][2] if lens else '-'), '; '.join(p3))
+        # L6: a conformant value is never refused -- guards in front of the packer and in the constructor the decoder uses
+        gp, n_raise = guard_problems(lx, c)
+        rep.check(not gp, R('L6'), key(lay, 'guards'), loc, '%d raise path(s) in __init__ / encode, none for a value the field can carry' % n_raise,
+                  '; '.join(gp))
     if only is not None:
         return
     # L4: converse direction, structural part
@@ -700,3 +704,96 @@ def _tokens_in(s, prefix: str):
     if s.ret:
         for m in _re.finditer(r'\b%s\w+' % prefix, s.ret):
             yield m.group(0)
+
+
+_CODE_MAX = {'B': 0xFF, 'H': 0xFFFF, 'I': 0xFFFFFFFF, 'L': 0xFFFFFFFF, 'Q': 0xFFFFFFFFFFFFFFFF,
+             'b': 0x7F, 'h': 0x7FFF, 'i': 0x7FFFFFFF, 'l': 0x7FFFFFFF, 'q': 0x7FFFFFFFFFFFFFFF}
+
+
+def guard_problems(lx: LayoutExtractor, c) -> Tuple[List[str], int]:
+    """Range guards in front of the packer: a ``raise`` the constructor or ``encode()`` of a codec class (with the helpers it
+    calls) can reach must not be reachable for a value its field can carry.  For every path that ends in an explicit raise, every
+    condition on a packed value -- an attribute, the constructor parameter stored into it, a length property -- is folded at the
+    two ends of the field's range (0 and the largest value of its struct code); a path whose conditions on that value all hold
+    at one of them rejects a legal value.  -> (problems, number of raise paths examined)"""
+    from .arith import CannotEvaluate, eval_value
+    from .fsm_model import exc_hierarchy
+    from .provider_model import parse_cond
+    from .srcmodel import FuncInfo
+    from .sym import SymClient, empty_state
+    repo = lx.repo
+    lay = lx.layout(c)
+    fields: Dict[str, Tuple[str, str]] = {}       # term -> (struct code, what it is)
+    for e in lay.enc:
+        if e[0] != 'f':
+            continue
+        code, b = e[1], e[4]
+        if code not in _CODE_MAX:
+            continue
+        if b[0] == 'attr':
+            fields['self.%s' % b[1]] = (code, b[1])
+        elif b[0] == 'length' and b[1]:
+            fields['self.%s' % b[1]] = (code, b[1])
+    cmap = lx.ctor_map(c)
+    for p_, a_ in cmap.items():
+        if 'self.%s' % a_ in fields:
+            fields[p_] = (fields['self.%s' % a_][0], a_)
+    probs: List[str] = []
+    n_paths = 0
+    hier = exc_hierarchy(repo)
+    for mname in ('__init__', 'encode'):
+        f = c.find_method(mname)
+        if f is None:
+            continue
+        fb = FuncInfo(f.module, c, f.name, f.node, f.kind, f.parent)
+        cl = SymClient(repo, fb, event_of=lambda *a: None, hierarchy=hier, inline=repo.is_helper)
+        o = cl.run(empty_state())
+        for s, exc in o.exc:
+            n_paths += 1
+            parsed = [(pol, e_) for pol, e_ in (parse_cond(x) for x in s.conds) if e_ is not None]
+            for term, (code, what) in fields.items():
+                if mname == 'encode' and not term.startswith('self.'):
+                    continue
+                te = ast.parse(term, mode='eval').body
+                key = ast.dump(te)
+                rel = [(pol, e_) for pol, e_ in parsed if any(ast.dump(y) == key for y in ast.walk(e_)
+                                                                 if isinstance(y, (ast.Name, ast.Attribute)))]
+                if not rel:
+                    continue
+                # the test that guards this raise is the last one of the path: only then is the value what is being rejected
+                if not parsed or not any(ast.dump(y) == key for y in ast.walk(parsed[-1][1]) if isinstance(y, (ast.Name, ast.Attribute))):
+                    continue
+                for v in (_CODE_MAX[code], 0):
+                    holds = True
+                    for pol, e_ in rel:
+
+                        class S(ast.NodeTransformer):
+                            def generic_visit(self_, n):
+                                if isinstance(n, (ast.Name, ast.Attribute)) and ast.dump(n) == key:
+                                    return ast.Constant(value=v)
+                                if isinstance(n, (ast.Name, ast.Attribute, ast.Subscript)) and isinstance(getattr(n, 'ctx', None), ast.Load):
+                                    # named limits and limit tables of the module
+                                    cv = repo.try_fold(n, f.module, c)
+                                    if cv is None:
+                                        # (the condition may come from a helper of another module, inlined by the analysis)
+                                        hits = [x for x in (repo.try_fold(n, m_, None) for m_ in repo.modules.values() if m_ is not f.module)
+                                                if type(x) in (int, float, str, bytes) and not isinstance(x, bool)]
+                                        cv = hits[0] if len(set(hits)) == 1 else None
+                                    if type(cv) in (int, float, str, bytes) and not isinstance(cv, bool):
+                                        return ast.Constant(value=cv)
+                                return super().generic_visit(n)
+                        import copy as _copy
+                        try:
+                            val = eval_value(S().visit(_copy.deepcopy(e_)), {})
+                        except (CannotEvaluate, Exception):
+                            holds = None
+                            break
+                        if bool(val) != pol:
+                            holds = False
+                            break
+                    if holds:
+                        probs.append('%s.%s raises %s for %s = %d (conditions %s): the field is packed as %r and carries every value up to %d'
+                                     % (c.name, mname, exc, what, v, ' and '.join(x for x in s.conds if term.split('.')[-1] in x)[:160],
+                                        code, _CODE_MAX[code]))
+                        break
+    return sorted(set(probs)), n_paths
